@@ -1,4 +1,6 @@
 import Fdo.Kex.Crypter
+import Fdo.Kex.CrypterProofs
+import Fdo.Drv.Tunnel
 import Fdo.Facts
 /-
 C05 — TO2 messages after ProveDevice are confidential and tamper-evident.
@@ -142,6 +144,68 @@ theorem unpad16_some (b q : Bytes) (h : unpad16 b = some q) :
 /-- Non-vacuity: the strict unpadding accepts a correctly padded block. -/
 example : unpad16 ([1, 2, 3] ++ List.replicate 13 13) = some [1, 2, 3] := by decide
 
+
+/-! ### the sending side, and the round trip -/
+
+/-- **A receiver obtains exactly the plaintext the sender protected** (decoded form; the CBOR transport
+of the structure between the two is C11's round trip and is exercised by the correspondence run): for
+every suite, keys, random stream and marshalled message, what `SessionCrypter.Encrypt` builds is opened
+by `SessionCrypter.Decrypt` to that message — for any primitives that are functionally correct. -/
+theorem decrypt_encrypt (P : Prims) (hP : PrimsCorrect P) (s : Suite) (sek svk : Bytes) (enc0S : Schema)
+    (rnd p : Bytes) (t : Nat) (inner : Val) (rest : Bytes)
+    (hp : ∃ x, unmarshalRaw p = some x)
+    (h : encryptVal P s sek svk enc0S rnd p = some (t, inner, rest)) :
+    decryptVal P s sek svk enc0S t inner = .ok p :=
+  (decryptVal_encryptVal P hP s sek svk enc0S rnd p t inner rest hp h).1
+
+/-- The sent form is the authenticated one of the suite: tag 16 exactly for AEAD suites (`macAlg = 0`),
+tag 17 (COSE_Mac0 around COSE_Encrypt0) otherwise — never a bare COSE_Encrypt0 under an
+encrypt-then-MAC suite. -/
+theorem sent_form_matches_suite (P : Prims) (s : Suite) (sek svk : Bytes) (enc0S : Schema)
+    (rnd p : Bytes) (t : Nat) (inner : Val) (rest : Bytes)
+    (h : encryptVal P s sek svk enc0S rnd p = some (t, inner, rest)) :
+    (s.macAlg = 0 → t = 16) ∧ (s.macAlg ≠ 0 → t = 17) := by
+  unfold encryptVal at h
+  split at h
+  · simp at h
+  · simp only [Option.bind_eq_some_iff] at h
+    obtain ⟨e0, _, h⟩ := h
+    split at h
+    · rename_i hm; simp at h; exact ⟨fun _ => h.1.symm, fun hn => absurd hm hn⟩
+    · rename_i hm
+      split at h
+      · simp at h
+      · simp only [Option.bind_eq_some_iff] at h
+        obtain ⟨_, _, _, _, h⟩ := h
+        simp at h; exact ⟨fun h0 => absurd h0 hm, fun _ => h.1.symm⟩
+
+/-- **A fresh initialisation vector per message**: each message carries, as its IV, the next `ivLen`
+bytes of the sender's random stream and consumes exactly those; two successive messages therefore
+carry disjoint consecutive slices of the stream (equal only if the random source repeats itself). -/
+theorem fresh_iv (P : Prims) (hP : PrimsCorrect P) (s : Suite) (sek svk : Bytes) (enc0S : Schema)
+    (rnd p₁ p₂ : Bytes) (t₁ t₂ : Nat) (i₁ i₂ : Val) (r₁ r₂ : Bytes)
+    (hp₁ : ∃ x, unmarshalRaw p₁ = some x) (hp₂ : ∃ x, unmarshalRaw p₂ = some x)
+    (h₁ : encryptVal P s sek svk enc0S rnd p₁ = some (t₁, i₁, r₁))
+    (h₂ : encryptVal P s sek svk enc0S r₁ p₂ = some (t₂, i₂, r₂)) :
+    ∃ iv₁ iv₂, ivOfSent t₁ i₁ = some iv₁ ∧ ivOfSent t₂ i₂ = some iv₂ ∧
+      iv₁ ++ iv₂ = rnd.take (2 * ivLen s) ∧ iv₁.length = ivLen s ∧ iv₂.length = ivLen s := by
+  obtain ⟨_, a1, a2, a3⟩ := decryptVal_encryptVal P hP s sek svk enc0S rnd p₁ t₁ i₁ r₁ hp₁ h₁
+  obtain ⟨_, b1, _, b3⟩ := decryptVal_encryptVal P hP s sek svk enc0S r₁ p₂ t₂ i₂ r₂ hp₂ h₂
+  subst a2
+  refine ⟨_, _, a1, b1, ?_, by simp; omega, by simp at b3 ⊢; omega⟩
+  have : 2 * ivLen s = ivLen s + ivLen s := by omega
+  rw [this, List.take_add]
+
+/-- The Lean AES-GCM and AES-CTR used by the model driver are functionally correct in the sense
+`decrypt_encrypt` needs (proved for the concrete implementations; CBC's block-cipher inverse is not
+proved for the concrete AES and is validated by the byte-exact correspondence with Go only). -/
+theorem concrete_gcm_ctr_correct :
+    (∀ k n a p c, Fdo.Drv.Tunnel.prims.aeadSeal k n a p = some c → Fdo.Drv.Tunnel.prims.aeadOpen k n a c = some p) ∧
+    (∀ k iv p c, Fdo.Drv.Tunnel.prims.ctr k iv p = some c → Fdo.Drv.Tunnel.prims.ctr k iv c = some p) :=
+  ⟨fun _ _ _ _ _ h => Fdo.Prim.gcmOpen_gcmSeal? h, fun _ _ _ _ h => Fdo.Prim.aesCtr?_involutive h⟩
+
+/-- strict unpadding inverts the padding the CBC sender applies -/
+theorem unpad16_pad (b : Bytes) : unpad16 (Fdo.Prim.pad b 16) = some b := Fdo.Kex.unpad16_pad b
 
 /-- **What the source does, in which order** (regenerated call-order facts of
 `SessionCrypter.Decrypt` / `Encrypt`): the MAC is recomputed and compared before anything is
